@@ -120,9 +120,13 @@ def run(model, col, tier):
     pn = gl.args.args[1].arg
     mk = [c for c in ast.walk(gl) if isinstance(c, ast.Call) and last_attr(c) == "Location"]
     good = False
-    if mk and mk[0].args and isinstance(mk[0].args[0], ast.Tuple) and len(mk[0].args[0].elts) == 2:
-        b, e = mk[0].args[0].elts
-        good = canon(b) == f"+{pn}.lexpos(+{which})" and sorted(canon(e).split(" ")) == sorted([f"+len(+{pn}[{which}])", f"+{pn}.lexpos(+{which})"])
+    from ..sem import local_env, resolve
+
+    gl_env = local_env(gl, allow_impure=True)
+    span0 = resolve(mk[0].args[0], gl_env) if mk and mk[0].args else None
+    if isinstance(span0, ast.Tuple) and len(span0.elts) == 2:
+        b, e = span0.elts
+        good = canon(b) ==f"+{pn}.lexpos(+{which})" and sorted(canon(e).split(" ")) == sorted([f"+len(+{pn}[{which}])", f"+{pn}.lexpos(+{which})"])
         ctext = (canon(b), canon(e))
     else:
         ctext = None
